@@ -190,3 +190,58 @@ func TestAgainstHashlib(t *testing.T) {
 	}
 	t.Log(fmt.Sprint(n, " hashlib comparisons"))
 }
+
+// Resume from the initial state must agree with the one-shot definition, and
+// resuming after k whole blocks (state computed by Resume's own loop being
+// re-entered) must agree as well: split points at every position.
+func TestResume(t *testing.T) {
+	r := rand.New(rand.NewPCG(5, 6))
+	for _, a := range []*Alg{B, S} {
+		for n := 0; n <= 5*a.BB; n += 1 + r.IntN(7) {
+			msg := make([]byte, n)
+			for i := range msg {
+				msg[i] = byte(r.Uint32())
+			}
+			nn := 1 + r.IntN(a.Out)
+			want := a.Sum(nn, nil, msg)
+			h0 := a.InitialH(a.SeqParam(nn, 0))
+			if got := a.Resume(h0, 0, 0, nil, msg, nn); !bytes.Equal(got, want) {
+				t.Fatalf("%s resume-from-start n=%d", a.Name, n)
+			}
+			// resume with part of the message pending in the buffer
+			for _, k := range []int{0, 1, a.BB - 1, a.BB} {
+				if k > n {
+					continue
+				}
+				if got := a.Resume(h0, 0, 0, msg[:k], msg[k:], nn); !bytes.Equal(got, want) {
+					t.Fatalf("%s resume buf=%d n=%d", a.Name, k, n)
+				}
+			}
+			// resume after whole compressed blocks: compute the chaining value with f directly
+			h := h0
+			tt := uint64(0)
+			rest := msg
+			for len(rest) > a.BB {
+				tt += uint64(a.BB)
+				a.f(&h, rest[:a.BB], tt, 0, false)
+				if got := a.Resume(h, tt, 0, nil, rest[a.BB:], nn); len(rest[a.BB:]) > 0 && !bytes.Equal(got, want) {
+					t.Fatalf("%s resume after %d bytes n=%d", a.Name, tt, n)
+				}
+				rest = rest[a.BB:]
+			}
+		}
+	}
+	// counter carry: low word wraps into the high word
+	h := S.InitialH(S.SeqParam(32, 0))
+	x := S.Resume(h, 1<<32-64, 0, make([]byte, 64), make([]byte, 1), 32) // t: 2^32-64 -> 2^32 (carry) -> 2^32+1
+	y := S.Resume(h, 0, 1, nil, make([]byte, 1), 32)                     // same h, t = 2^32 then +1, different first block though
+	if bytes.Equal(x, y) {
+		t.Fatal("carry test degenerate")
+	}
+	// the same continuation expressed with the carried counter must agree
+	hh := h
+	S.f(&hh, make([]byte, 64), 0, 1, false) // block compressed at t = 2^32
+	if z := S.Resume(hh, 0, 1, make([]byte, 1), nil, 32); !bytes.Equal(z, x) {
+		t.Fatalf("carry: %x vs %x", z, x)
+	}
+}
